@@ -245,3 +245,22 @@ Proof.
   rewrite vm_writes_untouched by exact Hn.
   apply set_nth_same. rewrite vm_writes_length. exact Hb.
 Qed.
+
+(* transformer: an apparent power (AC: sqrt3 * U_rated * I at either side; DC: |P|) within RATE_A is exactly a reported
+   loading (referred to sn_mva * df * parallel) within max_loading_percent *)
+Lemma rate_a_trafo_loading max_load sn df par s :
+  0 < sn * df * par ->
+  (s <= rate_a_trafo max_load sn df par <-> s / (sn * df * par) * 100 <= max_load).
+Proof.
+  intros Hm. unfold rate_a_trafo. qnorm. set (M := sn * df * par) in *.
+  assert (E1 : max_load / 100 * sn * df * par == max_load / 100 * M) by (unfold M; ring). rewrite E1.
+  assert (E2 : s / M * 100 == s * (100 / M)) by (field; lra). rewrite E2.
+  assert (Hinv : 0 < 100 / M) by (apply Qlt_shift_div_l; lra).
+  split; intros H.
+  - assert (s * (100 / M) <= (max_load / 100 * M) * (100 / M)) by (apply Qmult_le_compat_r; lra).
+    assert (E4 : max_load / 100 * M * (100 / M) == max_load) by (field; lra). lra.
+  - assert (s * (100 / M) * (M / 100) <= max_load * (M / 100)).
+    { apply Qmult_le_compat_r; [assumption|]. apply Qle_shift_div_l; lra. }
+    assert (E5 : s * (100 / M) * (M / 100) == s) by (field; lra).
+    assert (E6 : max_load * (M / 100) == max_load / 100 * M) by (field; lra). lra.
+Qed.
